@@ -147,13 +147,22 @@ func runMC(c *core.Ctx, runs []mcRun) (states, trans int, details []map[string]i
 			defer func() { <-sem }()
 			w := r.workers
 			if w == 0 {
-				w = 2
+				w = 1
 			}
-			outs[i].res, outs[i].err = tlc.Run(tlc.Opts{
-				SpecDirs: []string{specDir(c)}, Module: "ConcMC", Config: "mc.cfg",
-				Files:   map[string]string{"mc.cfg": r.cfgText},
-				Workers: w, Timeout: 30 * time.Minute, HeapMB: 6000, Scratch: c.Work,
-			})
+			// TLC was seen to hang once (30 min, 2.6k-state model, 4 workers, machine at load 140):
+			// bounded timeout and one retry with a single worker
+			for attempt := 0; attempt < 2; attempt++ {
+				outs[i].res, outs[i].err = tlc.Run(tlc.Opts{
+					SpecDirs: []string{specDir(c)}, Module: "ConcMC", Config: "mc.cfg",
+					Files:   map[string]string{"mc.cfg": r.cfgText},
+					Workers: w, Timeout: 14 * time.Minute, HeapMB: 6000, Scratch: c.Work,
+				})
+				if outs[i].err == nil || !strings.Contains(outs[i].err.Error(), "timed out") {
+					break
+				}
+				c.Warn(fmt.Sprintf("ConcMC %s: TLC timed out, retrying with one worker", r.name))
+				w = 1
+			}
 		}(i, r)
 	}
 	wg.Wait()
